@@ -115,7 +115,29 @@ def rule_order(ctx, R):
     # execution loop: loop containing the call to process_command_parts / process_normal_command
     execs = [i for i, t in b.calls() if callee(t) in (SERVER + "process_command_parts", SERVER + "process_normal_command")]
     if not execs:
-        R.broken.append("execution call not found in handle_exec"); return
+        # iterator form: the execution call sits in a closure handed to an adaptor
+        found = False
+        for cfn, cb in ctx.prog.bodies.items():
+            if cb.kind != "Closure" or cb.encl != HE:
+                continue
+            cex = [i for i, t in cb.calls() if callee(t) in (SERVER + "process_command_parts", SERVER + "process_normal_command")]
+            if not cex:
+                continue
+            found = True
+            passes_err = cb.ret_ty().startswith("std::result::Result<protocol::resp::RespFrame")
+            short_circuit = any(re.search(r"Iterator>::(collect::<std::result::Result<|try_for_each|try_fold|sum::<std::result::Result|product::<std::result::Result)", t["f"] or "") or
+                                re.search(r"Iterator>::collect::<std::result::Result<std::vec::Vec<protocol::resp::RespFrame>", t["f"] or "") for _, t in b.calls())
+            R.inst(HE, "exec-iterator", {"closure_returns_result": passes_err, "short_circuiting_collect": short_circuit})
+            if passes_err and short_circuit:
+                R.finding(HE, "exec-loop:early-exit", "EXEC runs the queued commands through a short-circuiting iterator (collect into Result / try_*): the first command that returns Err stops the others and replaces the reply array", b.loc())
+            elif passes_err:
+                # Err values must be turned into frames somewhere before the reply is built
+                conv = any(t["def"].endswith("RespFrame::error") for _, t in b.calls()) or any(t["def"].endswith("RespFrame::error") for _, t in cb.calls())
+                if not conv:
+                    R.finding(HE, "exec-loop:results-per-command", "an Err from a queued command is never turned into an error reply in its slot", b.loc())
+        if not found:
+            R.inst(HE, "exec-loop"); R.finding(HE, "exec-loop:missing", "EXEC does not execute the queued commands through the command dispatcher", b.loc())
+        return
     lps = cfg.loops(b)
     lp = None
     for h, body in lps.items():
@@ -374,9 +396,6 @@ def rule_w1(ctx, R):
                 ks = key_params_of_site(b, i, kind, f)
             keyname = "*" if ks is None else ",".join(sorted(b.local_name(k) for k in ks)) or "?"
             desc = "mut:%s:key=%s" % (short, keyname)
-            if desc in seen:
-                continue
-            seen.add(desc)
             ns += 1
             around = cfg.fwd(b, [i]) | cfg.bwd(b, [i])
             ok = False
@@ -391,7 +410,8 @@ def rule_w1(ctx, R):
                     if m in around and ((mks & ks) or (not ks and not mks)):
                         ok = True
             R.inst(fn, desc, {"function": fn[len(ENGINE):] if fn.startswith(ENGINE) else fn, "mutation": short, "key": keyname, "at": b.loc(i), "bump_with_same_key": ok})
-            if not ok:
+            if not ok and desc not in seen:
+                seen.add(desc)
                 R.finding(fn, "no-bump:" + desc,
                           "%s changes the dataset (%s on key `%s`, line %d) without a mark_modified of that key in the same function: a WATCH on the key does not abort EXEC" % (fn.split("::")[-1], short, keyname, b.bb_line(i)), b.loc(i))
     R.floor("mutating_engine_functions", nm)
